@@ -2,6 +2,7 @@ import ArrProofs.Lemmas.C18Generic
 import ArrProofs.Lemmas.C18Display
 import ArrProofs.Lemmas.C18Text
 import ArrProofs.Lemmas.C18String
+import ArrProofs.Lemmas.C18Fuel
 /-!
 # C18 — array literals and text forms carry shape and elements faithfully
 
@@ -184,6 +185,133 @@ theorem list_pinned_witness :
     ∧ parseList (fun t => some t) (showList (fun t : Str => t) [['1'], ['2']]) = some [['1'], ['2']] := by
   decide
 
+
+/-! ## the typed front ends `array_tuple!` / `array_list!` (their loops as written, `helpers.rs:31-106`) -/
+
+/-- **tuple literals** `array!(Tuple2<…>, <nested brackets>)` / `array!(Tuple3<…>, …)` (`array_tuple!` run on
+`format!("{:?}", vec![vec![lit]])`, whose leaves are the Debug texts `(c₁, c₂[, c₃])`): for every rank and every axis
+length the macro's shape is the written shape and the parenthesised pieces come out in reading order, each with its
+quotes removed and `", "` between two quoted components tightened to `","` (what `array_parse_input!` does; `from_str`
+accepts both).  Excluded (`TupOk`): bodies containing `)` or `\`, or — after the quote rewrite — the four characters
+`], [`.  An opening parenthesis inside a body is carried. -/
+theorem tuple_literal (s : List Nat) (bs : List Str) (hs : s ≠ []) (hpos : ∀ d ∈ s, 1 ≤ d)
+    (hl : bs.length = s.prod) (hc : ∀ b ∈ bs, TupOk b) :
+    arrayTuple (debugVec (1 :: s) (bs.map wrapP)) = .ok (s, bs.map (fun b => remove '"' (wrapP (quoteTight b)))) :=
+  arrayTuple_literal s bs hs hpos hl hc
+
+/-- … and when no component is quoted (numbers, booleans, characters other than `"`), the pieces are carried unchanged -/
+theorem tuple_literal_plain (s : List Nat) (bs : List Str) (hs : s ≠ []) (hpos : ∀ d ∈ s, 1 ≤ d)
+    (hl : bs.length = s.prod) (hc : ∀ b ∈ bs, ')' ∉ b ∧ '\\' ∉ b ∧ ']' ∉ b ∧ '"' ∉ b) :
+    arrayTuple (debugVec (1 :: s) (bs.map wrapP)) = .ok (s, bs.map wrapP) := by
+  have hq : ∀ b ∈ bs, quoteTight b = b := fun b hb =>
+    replace_of_not_mem (p := quoteSepL) (c := '"') (by decide) (hc b hb).2.2.2
+  rw [tuple_literal s bs hs hpos hl (fun b hb => ⟨(hc b hb).1, (hc b hb).2.1, noBr_of_not_mem (hc b hb).2.2.1⟩)]
+  congr 2
+  apply List.map_congr_left
+  intro b hb
+  rw [hq b hb]
+  exact remove_of_not_mem (by simp [wrapP, (hc b hb).2.2.2])
+
+/-- **the array of pairs that is built** (components intact): for pairs whose components print without
+`, ( ) [ ] " \` and are recovered by the component parsers, `array!(Tuple2<A, B>, lit)` is the array of shape `s`
+holding the written pairs in reading order (`Tuple2::from_str` on each piece, then `Array::new`). -/
+theorem tuple2_literal_array {α β} (sa : α → Str) (sb : β → Str) (pa : Str → Option α) (pb : Str → Option β)
+    (s : List Nat) (vals : List (α × β)) (hs : s ≠ []) (hpos : ∀ d ∈ s, 1 ≤ d) (hl : vals.length = s.prod)
+    (h : ∀ v ∈ vals, pa (sa v.1) = some v.1 ∧ pb (sb v.2) = some v.2 ∧ SepFree (sa v.1) ∧ SepFree (sb v.2) ∧
+      (∀ c ∈ sa v.1 ++ sb v.2, c ≠ '"' ∧ c ≠ '\\')) :
+    finish (parseTuple2 pa pb) (arrayTuple (debugVec (1 :: s) (vals.map (showTuple2 sa sb)))) = .ok ⟨vals, s⟩ := by
+  have hshow : vals.map (showTuple2 sa sb) = (vals.map (fun v => sa v.1 ++ [',', ' '] ++ sb v.2)).map wrapP := by
+    rw [List.map_map]; apply List.map_congr_left; intro v _; simp [showTuple2, wrapP, List.append_assoc]
+  have hbody : ∀ b ∈ vals.map (fun v => sa v.1 ++ [',', ' '] ++ sb v.2), ')' ∉ b ∧ '\\' ∉ b ∧ ']' ∉ b ∧ '"' ∉ b := by
+    intro b hb
+    obtain ⟨v, hv, rfl⟩ := List.mem_map.1 hb
+    obtain ⟨_, _, f1, f2, hq⟩ := h v hv
+    have key : ∀ c, c ∈ sa v.1 ++ [',', ' '] ++ sb v.2 → c ≠ ')' ∧ c ≠ '\\' ∧ c ≠ ']' ∧ c ≠ '"' := by
+      intro c hc
+      simp only [List.mem_append, List.mem_cons, List.not_mem_nil, or_false] at hc
+      rcases hc with (hc | hc | hc) | hc
+      · exact ⟨(f1 c hc).2.2.1, (hq c (by simp [hc])).2, (f1 c hc).2.2.2.2, (hq c (by simp [hc])).1⟩
+      · subst hc; decide
+      · subst hc; decide
+      · exact ⟨(f2 c hc).2.2.1, (hq c (by simp [hc])).2, (f2 c hc).2.2.2.2, (hq c (by simp [hc])).1⟩
+    exact ⟨fun hm => (key _ hm).1 rfl, fun hm => (key _ hm).2.1 rfl, fun hm => (key _ hm).2.2.1 rfl,
+      fun hm => (key _ hm).2.2.2 rfl⟩
+  rw [hshow, tuple_literal_plain s _ hs hpos (by simpa using hl) hbody, ← hshow]
+  have hm : Res.mapM' (fun t => Res.unwrap (parseTuple2 pa pb t)) (vals.map (showTuple2 sa sb)) = .ok vals := by
+    clear hshow hbody hl
+    induction vals with
+    | nil => rfl
+    | cons v r ih =>
+      obtain ⟨h1, h2, f1, f2, _⟩ := h v (by simp)
+      have hv : parseTuple2 pa pb (showTuple2 sa sb v) = some v := tuple2_roundtrip sa sb pa pb v.1 v.2 h1 h2 f1 f2
+      have h2 := ih (fun w hw => h w (by simp [hw]))
+      simp only [Res.mapM', List.map_cons, Res.sequence, hv, Res.unwrap] at h2 ⊢
+      rw [h2]; rfl
+  simp [finish, hm, Arr.new, hl]
+
+/-- **list literals** `array!(List<T>, <nested brackets>)` (`array_list!` run on `format!("{:?}", vec![lit])`, whose
+leaves are the Debug texts `[i₁, i₂, …]`, the empty list included): for every rank and every axis length the macro's shape
+is the written shape — the marking pass writes `&[` exactly in front of the lists — and the list bodies come out in
+reading order without their brackets, quotes removed, `", "` between two quoted items tightened to `","`.
+Excluded (`ListOk`): bodies containing `[`, `]` or `\`.  An `&` or `_` inside a body is carried. -/
+theorem list_literal (s : List Nat) (bs : List Str) (hs : s ≠ []) (hpos : ∀ d ∈ s, 1 ≤ d)
+    (hl : bs.length = s.prod) (hc : ∀ b ∈ bs, ListOk b) :
+    arrayList (debugVec s (bs.map wrapB)) = .ok (s, bs.map (fun b => remove '"' (quoteTight b))) :=
+  arrayList_literal s bs hs hpos hl hc
+
+/-- … and when no item is quoted, the bodies are carried unchanged -/
+theorem list_literal_plain (s : List Nat) (bs : List Str) (hs : s ≠ []) (hpos : ∀ d ∈ s, 1 ≤ d)
+    (hl : bs.length = s.prod) (hc : ∀ b ∈ bs, ListOk b ∧ '"' ∉ b) :
+    arrayList (debugVec s (bs.map wrapB)) = .ok (s, bs) := by
+  rw [list_literal s bs hs hpos hl (fun b hb => (hc b hb).1)]
+  congr 2
+  conv => rhs; rw [← List.map_id bs]
+  apply List.map_congr_left
+  intro b hb
+  have : quoteTight b = b := replace_of_not_mem (p := quoteSepL) (c := '"') (by decide) (hc b hb).2
+  rw [this]
+  exact remove_of_not_mem (hc b hb).2
+
+/-- **the `array_tuple!` loop ends on every text**: with `n` opening parentheses in the text, `n + 2` iterations are all
+the loop can use; more fuel never changes the outcome (so the model's "out of fuel" answer never stands for a loop that
+would go on: `arrayTuple` gives the loop `text.length + 1 ≥ n + 1` iterations and the `n + 2`-nd, if reached, is a panic
+anyway — see `tuple_adjacent_parens`). -/
+theorem tuple_loop_ends (n : Nat) (text : Str) (acc : List Str) (k : Nat) (h : text.count '(' ≤ n) :
+    cutTuples (n + 2 + k) text acc = cutTuples (n + 2) text acc :=
+  cutTuples_fuel n text acc k h
+
+/-- **the `array_list!` cut-out loop ends on every text** within `count('&') + 1` iterations -/
+theorem list_loop_ends (n : Nat) (text : Str) (acc : List Str) (k : Nat) (h : text.count '&' ≤ n) :
+    cutLists (n + 1 + k) text acc = cutLists (n + 1) text acc :=
+  cutLists_fuel n text acc k h
+
+/-- **the one iteration of `array_tuple!` that makes no progress**: when the first `)` of the text stands directly
+before its first `(`, `start..=end` is the empty range at `start` — an empty piece is pushed, a `_` is inserted, nothing is
+removed (the text grows by one character and still holds the same `(`). -/
+theorem tuple_adjacent_no_progress (A Z : Str) (acc : List Str) (fuel : Nat) (hA : '(' ∉ A ∧ ')' ∉ A) :
+    cutTuples (fuel + 1) (A ++ ')' :: '(' :: Z) acc = cutTuples fuel (A ++ ')' :: '_' :: '(' :: Z) ([] :: acc) :=
+  cutTuples_adjacent_step A Z acc fuel hA
+
+/-- … but the loop does not run on: the next iteration has `start = end + 2` and its slice panics.  On every text whose
+first `)` comes before its first `(` — directly or not — `array_tuple!` panics, with any amount of fuel. -/
+theorem tuple_adjacent_parens (A G Z : Str) (acc : List Str) (hA : '(' ∉ A ∧ ')' ∉ A) (hG : '(' ∉ G) (fuel : Nat) :
+    cutTuples fuel (A ++ ')' :: (G ++ '(' :: Z)) acc = .panic := by
+  cases G with
+  | nil => exact cutTuples_adjacent A Z acc hA fuel
+  | cons x G => exact cutTuples_close_first A (x :: G) Z acc hA hG (by simp) fuel
+
+/-- the exclusions of `tuple_literal` / `list_literal` are necessary (each line: a literal whose one offending item
+changes the outcome): a component `")"`; a component holding backslash-n; a component holding `], [`; a list item that
+is itself a list; a list item `"a]"`; a list item holding backslash-n. -/
+theorem typed_literal_exclusions_needed :
+    arrayTuple "[[[(\")\", 1), (\"b\", 2)]]]".toList = .panic
+    ∧ arrayTuple "[[[(\"a\\\\nb\", 1)]]]".toList = .ok ([1], ["(a\\\nb, 1)".toList])
+    ∧ arrayTuple "[[[(\"x], [y\", 1), (\"b\", 2)]]]".toList = .ok ([2], ["(x],[y, 1)".toList, "(b, 2)".toList])
+    ∧ arrayList "[[[[1], 2], [3]]]".toList = .ok ([2, 2], ["1".toList])
+    ∧ arrayList "[[[\"a]\", \"b\"], [\"c\"]]]".toList = .panic
+    ∧ arrayList "[[[\"a\\\\nb\"], [\"c\"]]]".toList = .ok ([2], ["a\\\nb".toList, "c".toList]) :=
+  ⟨by decide, by decide, by decide, by decide, by decide, by decide⟩
+
 /-! ## non-vacuity -/
 
 section examples
@@ -225,6 +353,18 @@ example : SepFree ['-', '2', '.', '5'] := by
   intro c hc; simp only [List.mem_cons, List.not_mem_nil, or_false] at hc
   rcases hc with rfl | rfl | rfl | rfl <;> decide
 example : parseTuple2 (fun t => some t) (fun t => some t) "(1, 2.5)".toList = some ("1".toList, "2.5".toList) := by decide
+
+/-- tuple and list literals: the hypotheses are satisfiable and the model run on the literal confirms the statements
+(quoted components with a blank, a comma-free `(`, an `&`, the empty list) -/
+example : TupOk "\"a b\", \"(\"".toList :=
+  ⟨by decide, by decide, noBr_of_not_mem (by decide)⟩
+example : arrayTuple (debugVec [1, 2] ["(1, 2.5)".toList, "(\"a b\", \"(\")".toList])
+    = .ok ([2], ["(1, 2.5)".toList, "(a b,()".toList]) := by decide
+example : ListOk "\"a&\", \"_\"".toList := ⟨by decide, by decide, by decide⟩
+example : arrayList (debugVec [2, 1] ["[1, 2]".toList, "[]".toList]) = .ok ([2, 1], ["1, 2".toList, []]) := by decide
+example : arrayList "[[[\"a&\", \"b\"], [\"&c\"]]]".toList = .ok ([2], ["a&,b".toList, "&c".toList]) := by decide
+/-- `)(`: one no-progress iteration, then a panic — never a result, never an endless loop -/
+example : cutTuples 100 "[[[x)(1, 2)]]]".toList [] = .panic := by decide
 end examples
 
 end ArrModel.C18
